@@ -1,15 +1,46 @@
 """C13 — migration moves a unit to the requested pool exactly once, with its callback.
 Ties: T1 (skeletons of the scheduling / context-switch / life-cycle functions), T3 (vsched traces of generated work-unit
-programs validated against Model.Sched), scenario monitors + deadlock detection for the failing-input search."""
+programs validated against Model.Sched), scenario monitors + deadlock detection for the failing-input search; migrations
+whose re-association with a user-defined target pool fails (single injected allocation failures, harness/fi_scen.c
+`as.mig_yield.*`): the callback belongs to the performed migration only."""
 from checks import sched_common as S
 
-ASSUMPTIONS = list(S.BASE_ASSUMPTIONS)
-EXTRA_T1 = [('thread.c', 'ABT_thread_migrate'), ('thread.c', 'ABT_thread_migrate_to_pool'), ('thread.c', 'ABT_thread_migrate_to_sched'), ('thread.c', 'ABT_thread_migrate_to_xstream'), ('sched/sched.c', 'ABTI_sched_get_migration_pool'), ('thread.c', 'ABTI_thread_get_mig_data'), ('thread.c', 'ABTI_thread_set_associated_pool')]
+ASSUMPTIONS = list(S.BASE_ASSUMPTIONS) + [
+    "failed re-association: single allocation failures of the target pool's unit creation / unit map (fault enumeration)"]
+EXTRA_T1 = [('thread.c', 'ABT_thread_migrate'), ('thread.c', 'ABT_thread_migrate_to_pool'), ('thread.c', 'ABT_thread_migrate_to_sched'), ('thread.c', 'ABT_thread_migrate_to_xstream'), ('sched/sched.c', 'ABTI_sched_get_migration_pool'), ('thread.c', 'ABTI_thread_get_mig_data'), ('thread.c', 'ABTI_thread_set_associated_pool'),
+            ('thread.c', 'ABTI_thread_handle_request_migrate'), ('thread.c', 'ABT_thread_set_callback')]
+FI_SCENARIOS = ["as.mig_yield.bi.bi", "as.mig_yield.bi.ud", "as.mig_yield.bi.lg"]
+
+
+def faulted_migration(res):
+    from checks import c18
+    exe = c18.build("plain")
+    runs = 0
+    for sc in FI_SCENARIOS:
+        base = c18.run_one(exe, sc, 0)
+        n = base.get("N", 0) if "crash" not in base else 0
+        for k in range(0, n + 1):
+            r = base if k == 0 else c18.run_one(exe, sc, k)
+            runs += 1
+            bad = [p for p in r.get("problems", [])] + (["scenario %s" % r["crash"]] if "crash" in r else [])
+            if bad:
+                res.violation("migration to a pool whose unit creation fails (%s, failing acquisition %d): %s" % (sc, k, bad[0]),
+                              {"fi_scenario": sc, "k": k, "result": {x: r.get(x) for x in ("outcome", "problems", "crash", "fired")}})
+                break
+    res.add_cov(faulted_migration_runs=runs)
 
 
 def run(res, tier, broken):
     S.run_sched(res, tier, broken, "C13", EXTRA_T1)
+    faulted_migration(res)
 
 
 def replay(res, path):
+    import json
+    rep = json.load(open(path))
+    if "fi_scenario" in rep:
+        from checks import c18
+        r = c18.run_one(c18.build("plain"), rep["fi_scenario"], rep["k"])
+        print(json.dumps(r)[:2000])
+        return 1 if (r.get("problems") or "crash" in r) else 0
     return S.replay(res, path)
